@@ -1,10 +1,17 @@
 //! C17 — action state reflects its dispatch history under any completion order.
 //!
-//! case `(0 variant events)`: one `ArcAction`/`Action` whose futures are oneshot receivers
-//! completed by the schedule; case `(1 events)`: one `ArcMultiAction`.
+//! case `(0 variant events)`: one `ArcAction`/`Action` (variants 0..3) or leptos_server
+//! `ArcServerAction`/`ServerAction` over a mock server function (variants 4, 5; dispatched through
+//! the wrapper's own methods), whose futures are oneshot receivers completed by the schedule;
+//! case `(1 events [mv])`: one `ArcMultiAction` (mv 0), `ArcServerMultiAction` (1) or
+//! `ServerMultiAction` (2). For the server wrappers a negative result is an `Err(..)`.
 //! The observation is one entry per event: the action's public state after the event.
-use crate::exec;
+use crate::{
+    exec,
+    srvfn::{self, of_res, to_res, Call, Res},
+};
 use futures::channel::oneshot;
+use leptos_server::{ArcServerAction, ArcServerMultiAction, ServerAction, ServerMultiAction};
 use reactive_graph::{
     actions::{Action, ActionAbortHandle, ArcAction, ArcMultiAction, ArcSubmission},
     computed::ArcMemo,
@@ -19,21 +26,28 @@ type Slot = Arc<Mutex<Option<oneshot::Receiver<i64>>>>;
 enum Act {
     Arc(ArcAction<i64, i64>),
     Arena(Action<i64, i64>),
+    SrvArc(ArcServerAction<Call>),
+    Srv(ServerAction<Call>),
 }
 
 impl Act {
-    fn dispatch(&self, local: bool, i: i64) -> ActionAbortHandle {
+    fn dispatch(&self, local: bool, i: i64, rx: &mut Option<oneshot::Receiver<i64>>) -> ActionAbortHandle {
         match (self, local) {
             (Act::Arc(a), false) => a.dispatch(i),
             (Act::Arc(a), true) => a.dispatch_local(i),
             (Act::Arena(a), false) => a.dispatch(i),
             (Act::Arena(a), true) => a.dispatch_local(i),
+            // the wrapper's own method (whatever it resolves to: inherent or through Deref)
+            (Act::SrvArc(a), _) => a.dispatch(srvfn::prepare(i, rx.take().unwrap())),
+            (Act::Srv(a), _) => a.dispatch(srvfn::prepare(i, rx.take().unwrap())),
         }
     }
     fn clear(&self) {
         match self {
             Act::Arc(a) => a.clear(),
             Act::Arena(a) => a.clear(),
+            Act::SrvArc(a) => a.clear(),
+            Act::Srv(a) => a.clear(),
         }
     }
     fn obs(&self, pending: &ArcMemo<bool>) -> Vec<Sexp> {
@@ -47,6 +61,16 @@ impl Act {
                 a.version().get_untracked(),
                 a.value().get_untracked(),
                 a.input().get_untracked(),
+            ),
+            Act::SrvArc(a) => (
+                a.version().get_untracked(),
+                a.value().get_untracked().map(|r| of_res(&r)),
+                a.input().get_untracked().map(|c| c.0),
+            ),
+            Act::Srv(a) => (
+                a.version().get_untracked(),
+                a.value().get_untracked().map(|r| of_res(&r)),
+                a.input().get_untracked().map(|c| c.0),
             ),
         };
         vec![
@@ -67,10 +91,11 @@ fn opt(v: Option<i64>) -> Sexp {
 
 pub fn run(c: &Sexp) -> Sexp {
     exec::reset();
+    srvfn::reset();
     let owner = Owner::new();
     let out = owner.with(|| match c.at(0).num() {
         0 => single(c.at(1).num(), c.at(2)),
-        1 => multi(c.at(1)),
+        1 => multi(c.at(1), c.at(2).num()),
         _ => Lst(vec![]),
     });
     exec::reset();
@@ -91,11 +116,19 @@ fn single(variant: i64, events: &Sexp) -> Sexp {
         0 => (Act::Arc(ArcAction::new(f)), false),
         1 => (Act::Arena(Action::new(f)), false),
         2 => (Act::Arc(ArcAction::new_unsync(f)), true),
-        _ => (Act::Arena(Action::new_local(f)), true),
+        3 => (Act::Arena(Action::new_local(f)), true),
+        4 => (Act::SrvArc(ArcServerAction::new()), false),
+        _ => (Act::Srv(ServerAction::new()), false),
     };
+    let server = variant >= 4;
     let pending = match &act {
         Act::Arc(a) => a.pending(),
+        Act::SrvArc(a) => a.pending(),
         Act::Arena(a) => {
+            let m = a.pending();
+            ArcMemo::new(move |_| m.get())
+        }
+        Act::Srv(a) => {
             let m = a.pending();
             ArcMemo::new(move |_| m.get())
         }
@@ -110,8 +143,11 @@ fn single(variant: i64, events: &Sexp) -> Sexp {
         match ev.at(0).num() {
             0 => {
                 let (tx, rx) = oneshot::channel();
-                *slot.lock().unwrap() = Some(rx);
-                let h = act.dispatch(local, k);
+                let mut rx = Some(rx);
+                if !server {
+                    *slot.lock().unwrap() = rx.take();
+                }
+                let h = act.dispatch(local, k, &mut rx);
                 handles.push(Some(h));
                 senders.push(Some(tx));
                 assert_eq!(exec::spawned() - base, handles.len(), "one task per dispatch");
@@ -152,7 +188,90 @@ fn single(variant: i64, events: &Sexp) -> Sexp {
     Lst(out)
 }
 
-fn multi(events: &Sexp) -> Sexp {
+enum MAct {
+    Plain(ArcMultiAction<i64, i64>),
+    SrvArc(ArcServerMultiAction<Call>),
+    Srv(ServerMultiAction<Call>),
+}
+
+impl MAct {
+    fn dispatch(&self, i: i64, rx: &mut Option<oneshot::Receiver<i64>>) {
+        match self {
+            MAct::Plain(a) => a.dispatch(i),
+            MAct::SrvArc(a) => a.dispatch(srvfn::prepare(i, rx.take().unwrap())),
+            MAct::Srv(a) => a.dispatch(srvfn::prepare(i, rx.take().unwrap())),
+        }
+    }
+    fn dispatch_sync(&self, v: i64) {
+        match self {
+            MAct::Plain(a) => a.dispatch_sync(v),
+            MAct::SrvArc(a) => a.dispatch_sync(to_res(v)),
+            MAct::Srv(a) => a.dispatch_sync(to_res(v)),
+        }
+    }
+    fn cancel(&self, k: usize) {
+        match self {
+            MAct::Plain(a) => {
+                if let Some(s) = a.submissions().get_untracked().get(k) {
+                    s.cancel()
+                }
+            }
+            MAct::SrvArc(a) => {
+                if let Some(s) = a.submissions().get_untracked().get(k) {
+                    s.cancel()
+                }
+            }
+            MAct::Srv(a) => {
+                if let Some(s) = a.submissions().get_untracked().get(k) {
+                    s.cancel()
+                }
+            }
+        }
+    }
+    fn version(&self) -> usize {
+        match self {
+            MAct::Plain(a) => a.version().get_untracked(),
+            MAct::SrvArc(a) => a.version().get_untracked(),
+            MAct::Srv(a) => a.version().get_untracked(),
+        }
+    }
+    fn records(&self) -> Vec<Sexp> {
+        fn rec(inp: Option<i64>, val: Option<i64>, p: bool, c: bool) -> Sexp {
+            Lst(vec![opt(inp), opt(val), Sexp::bool(p), Sexp::bool(c)])
+        }
+        fn srv(subs: Vec<ArcSubmission<Call, Res>>) -> Vec<Sexp> {
+            subs.iter()
+                .map(|s| {
+                    rec(
+                        s.input().get_untracked().map(|c| c.0),
+                        s.value().get_untracked().map(|r| of_res(&r)),
+                        s.pending().get_untracked(),
+                        s.canceled().get_untracked(),
+                    )
+                })
+                .collect()
+        }
+        match self {
+            MAct::Plain(a) => a
+                .submissions()
+                .get_untracked()
+                .iter()
+                .map(|s| {
+                    rec(
+                        s.input().get_untracked(),
+                        s.value().get_untracked(),
+                        s.pending().get_untracked(),
+                        s.canceled().get_untracked(),
+                    )
+                })
+                .collect(),
+            MAct::SrvArc(a) => srv(a.submissions().get_untracked()),
+            MAct::Srv(a) => srv(a.submissions().get_untracked()),
+        }
+    }
+}
+
+fn multi(events: &Sexp, mv: i64) -> Sexp {
     let slot: Slot = Arc::new(Mutex::new(None));
     let f = {
         let slot = slot.clone();
@@ -161,8 +280,12 @@ fn multi(events: &Sexp) -> Sexp {
             async move { rx.await.unwrap_or(-1) }
         }
     };
-    let act: ArcMultiAction<i64, i64> = ArcMultiAction::new(f);
-    let base = exec::spawned();
+    let act = match mv {
+        1 => MAct::SrvArc(ArcServerMultiAction::new()),
+        2 => MAct::Srv(ServerMultiAction::new()),
+        _ => MAct::Plain(ArcMultiAction::new(f)),
+    };
+    let server = mv == 1 || mv == 2;
     let mut senders: Vec<Option<oneshot::Sender<i64>>> = vec![];
     // task index of each submission (dispatch_sync spawns nothing)
     let mut task_of: Vec<Option<usize>> = vec![];
@@ -173,19 +296,17 @@ fn multi(events: &Sexp) -> Sexp {
         match ev.at(0).num() {
             0 => {
                 let (tx, rx) = oneshot::channel();
-                *slot.lock().unwrap() = Some(rx);
+                let mut rx = Some(rx);
+                if !server {
+                    *slot.lock().unwrap() = rx.take();
+                }
                 let before = exec::spawned();
-                act.dispatch(k);
+                act.dispatch(k, &mut rx);
                 assert_eq!(exec::spawned(), before + 1, "one task per dispatch");
                 task_of.push(Some(before));
                 senders.push(Some(tx));
             }
-            1 => {
-                let subs = act.submissions().get_untracked();
-                if let Some(s) = subs.get(ku) {
-                    s.cancel();
-                }
-            }
+            1 => act.cancel(ku),
             2 => {
                 if let Some(tx) = senders.get_mut(ku).and_then(|h| h.take()) {
                     let _ = tx.send(ev.at(2).num());
@@ -206,22 +327,9 @@ fn multi(events: &Sexp) -> Sexp {
             }
             _ => {}
         }
-        let _ = base;
-        let subs: Vec<ArcSubmission<i64, i64>> = act.submissions().get_untracked();
-        let recs = subs
-            .iter()
-            .map(|s| {
-                Lst(vec![
-                    opt(s.input().get_untracked()),
-                    opt(s.value().get_untracked()),
-                    Sexp::bool(s.pending().get_untracked()),
-                    Sexp::bool(s.canceled().get_untracked()),
-                ])
-            })
-            .collect();
         out.push(Lst(vec![
-            Num(act.version().get_untracked() as i64),
-            Lst(recs),
+            Num(act.version() as i64),
+            Lst(act.records()),
             Sexp::bool(exec::ready().is_empty()),
         ]));
     }
